@@ -18,6 +18,9 @@
 (*   crash  : CrashRecover restarts from the durable image or from the     *)
 (*            image with every pending write persisted (all other subsets  *)
 (*            are covered by the invariant CrashSafe in every state)       *)
+(*   overflow: a transaction that enabled the overflow area may take meta  *)
+(*            pages beyond the limit of a full file; free ones are         *)
+(*            released again from the end of the file by later commits     *)
 (*   reader : BeginRead / EndRead around the writer's steps                *)
 (*   resize : open with FlagUpdMaxSize (file.go growFile/shrinkFile): an   *)
 (*            internal transaction that writes a header with the new limit *)
@@ -40,7 +43,8 @@ CONSTANTS NP,        \* page ids are 0 .. NP-1 (0, 1: headers)
           GrowBy,    \* pages moved into the meta area when it is exhausted
           MaxTx, MaxOps, Readers,
           AbortAfterHeader,  \* allow an abort after the header write was issued (a failed final sync)
-          Sizes              \* limits an open with FlagUpdMaxSize may set ({} = the limit never changes)
+          Sizes,             \* limits an open with FlagUpdMaxSize may set ({} = the limit never changes)
+          Overflow           \* transactions may enable the overflow area (TxOptions.EnableOverflowArea)
 
 VARIABLES ntx, nops, ver    \* bounds and the version counter for page contents
 
@@ -95,8 +99,16 @@ Grow(a, n) ==
        IF ~t.ok THEN a
        ELSE Grow([t.a EXCEPT !.mFree = @ \cup {t.p}, !.mTot = @ + 1], n - 1)
 
+\* overflow area: when the data area has nothing left, a transaction that enabled it takes the
+\* page at the meta end marker (beyond the limit) into the meta freelist (metaManager.tryGrow)
+GrowOverflow(a) ==
+  IF a.mEnd < NP THEN [a EXCEPT !.mFree = @ \cup {a.mEnd}, !.mEnd = @ + 1, !.mTot = @ + 1] ELSE a
+
 \* make sure one meta page is free
-Ensure(a) == IF a.mFree # {} THEN a ELSE Grow(a, GrowBy)
+Ensure(a, ovf) ==
+  IF a.mFree # {} THEN a
+  ELSE LET g == Grow(a, GrowBy) IN
+       IF g.mFree # {} \/ ~ovf THEN g ELSE GrowOverflow(g)
 
 (***************************************************************************)
 (* Transaction body                                                        *)
@@ -107,12 +119,14 @@ Op == nops' = nops + 1 /\ nops < MaxOps
 
 Begin ==
   /\ tx = NoTx /\ ntx < MaxTx
-  /\ tx' = [pc |-> "body", root |-> cm.root, w |-> EmptyFn, new |-> {}, freed |-> {}, flushed |-> {},
-            walNew |-> EmptyFn, walRel |-> {}, mFreed |-> {}, mAlloc |-> {}, al0 |-> al, cs |-> None,
-            force |-> FALSE]
+  /\ \E o \in (IF Overflow THEN BOOLEAN ELSE {FALSE}) :
+       /\ tx' = [pc |-> "body", root |-> cm.root, w |-> EmptyFn, new |-> {}, freed |-> {}, flushed |-> {},
+                 walNew |-> EmptyFn, walRel |-> {}, mFreed |-> {}, mAlloc |-> {}, al0 |-> al, cs |-> None,
+                 force |-> FALSE, ovf |-> o]
+       /\ stats' = [stats EXCEPT !.ovf = @ \/ o]
   /\ ntx' = ntx + 1 /\ nops' = 0
   /\ lk' = [lk EXCEPT !.res = TRUE]
-  /\ UNCHANGED <<cm, rds, al, wm, hdr, stats, dur, pend, cd, inflight, maybe, ver>>
+  /\ UNCHANGED <<cm, rds, al, wm, hdr, dur, pend, cd, inflight, maybe, ver>>
 
 AllocPage ==
   /\ InBody /\ Op
@@ -156,7 +170,7 @@ FlushOne(t, a, pw, p) ==
          [ok |-> TRUE,
           t |-> [t EXCEPT !.flushed = @ \cup {p}, !.walRel = @ \cup {p}, !.mFreed = @ \cup {wm.map[p]}],
           a |-> a, pw |-> Append(pw, <<p, [k |-> "D", q |-> t.w[p]]>>)]
-  ELSE LET a2 == Ensure(a) IN
+  ELSE LET a2 == Ensure(a, t.ovf) IN
        IF a2.mFree = {} THEN [ok |-> FALSE, t |-> t, a |-> a, pw |-> pw]
        ELSE LET w == MinOf(a2.mFree) IN
             [ok |-> TRUE,
@@ -233,7 +247,7 @@ Suffix(S, max, end) == {p \in S : p >= max /\ \A q \in p..(end - 1) : q \in S}
 
 \* take one list page from the end of the meta freelist
 MetaTakeHigh(a) ==
-  LET a2 == Ensure(a) IN
+  LET a2 == Ensure(a, tx.ovf) IN
   IF a2.mFree = {} THEN [ok |-> FALSE, p |-> 0, a |-> a]
   ELSE LET p == MaxOf(a2.mFree) IN [ok |-> TRUE, p |-> p, a |-> [a2 EXCEPT !.mFree = @ \ {p}]]
 
@@ -374,7 +388,7 @@ ResizeHdr(m) ==
   /\ tx = NoTx /\ DOMAIN rds = {} /\ pend = <<>> /\ ntx < MaxTx /\ m # al.max
   /\ tx' = [pc |-> "rzhdr", root |-> cm.root, w |-> EmptyFn, new |-> {}, freed |-> {}, flushed |-> {},
             walNew |-> EmptyFn, walRel |-> {}, mFreed |-> {}, mAlloc |-> {}, al0 |-> al, cs |-> [m |-> m],
-            force |-> TRUE]
+            force |-> TRUE, ovf |-> FALSE]
   /\ pend' = <<<<1 - hdr.slot, [k |-> "H", ok |-> TRUE, txid |-> hdr.txid + 1, root |-> hdr.root, fl |-> hdr.fl,
                                wal |-> hdr.wal, dEnd |-> hdr.dEnd, mEnd |-> hdr.mEnd, mTot |-> hdr.mTot, max |-> m]>>>>
   /\ inflight' = cm
